@@ -309,6 +309,16 @@ impl Cont {
             Cont::V(v) => Cont::V(v.clone()),
         }
     }
+    // Clone::clone_from on the value itself (for the boxed PayloadKey: on the PayloadKey inside the box, so the
+    // box and its heap block stay).  Both containers must be of the same kind.
+    fn assign_from(&mut self, src: &Cont) {
+        match (self, src) {
+            (Cont::P(a), Cont::P(b)) => a.clone_from(b),
+            (Cont::K(a), Cont::K(b)) => (**a).clone_from(&**b),
+            (Cont::V(a), Cont::V(b)) => a.clone_from(b),
+            _ => panic!("f<i>:<j>: containers of different kinds"),
+        }
+    }
 }
 
 fn recs_range(from: usize, to: usize) -> String {
@@ -332,6 +342,7 @@ fn z_hist(script: &str) -> String {
         NewV(Vec<u8>),
         Clone(usize),
         Drop(usize),
+        CloneFrom(usize, usize),
     }
     // parse first, so that the observed part does nothing but the container operations
     let mut toks: Vec<Tok> = Vec::new();
@@ -345,6 +356,9 @@ fn z_hist(script: &str) -> String {
                 Tok::NewK(unhex(h))
             } else if let Some(h) = t.strip_prefix("nv:") {
                 Tok::NewV(unhex(h))
+            } else if let Some(ij) = t.strip_prefix('f') {
+                let (i, j) = ij.split_once(':').expect("f<i>:<j>");
+                Tok::CloneFrom(i.parse().expect("bad index"), j.parse().expect("bad index"))
             } else if let Some(i) = t.strip_prefix('c') {
                 Tok::Clone(i.parse().expect("bad index"))
             } else if let Some(i) = t.strip_prefix('d') {
@@ -392,6 +406,26 @@ fn z_hist(script: &str) -> String {
             Tok::Drop(i) => {
                 let c = live.remove(*i);
                 drop(c);
+            }
+            Tok::CloneFrom(i, j) => {
+                assert!(i != j, "f<i>:<j> needs two different containers");
+                assert!(*i < live.len() && *j < live.len(), "bad index");
+                let before = live[*i].block();
+                // two disjoint borrows of the list
+                let (dst, src): (&mut Cont, &Cont) = if i < j {
+                    let (a, b) = live.split_at_mut(*j);
+                    (&mut a[*i], &b[0])
+                } else {
+                    let (a, b) = live.split_at_mut(*i);
+                    (&mut b[0], &a[*j])
+                };
+                dst.assign_from(src);
+                // the replaced value's block, if it was given up, has been recorded by dealloc (it was still
+                // watched); the container's block is now a different one: watch it
+                let after = live[*i].block();
+                if after != before {
+                    watch_add(after, 32);
+                }
             }
         }
     }
